@@ -19,3 +19,18 @@ def build(reg):
                  "{'Local': {basis: {qubit: {'amp','det','phase': real 1-d tensors of max_duration entries}}}}",
                  "PCHIP1D contracts (verified under C20)"],
     )
+
+
+# negative controls (thorough tier): (name, file, old text, new text)
+CONTROLS = [('midpoint replaced by the step start',
+  'emu_base/pulser_adapter.py',
+  't_mid = 0.5 * (target_t[:-1] + target_t[1:])',
+  't_mid = 1.0 * target_t[:-1]'),
+ ('phase written into the detuning array',
+  'emu_base/pulser_adapter.py',
+  '"det": delta_mid,\n        "phase": phi_mid,',
+  '"det": phi_mid,\n        "phase": delta_mid,'),
+ ('no clamp of the extrapolated amplitude',
+  'emu_base/pulser_adapter.py',
+  '(t_mid > t_grid[-1]) & (values < 0)',
+  '(t_mid > t_grid[-1] + 1.0) & (values < 0)')]
